@@ -69,6 +69,13 @@ def machine(kind, retry, catch, fname):
     if kind.endswith("-nested"):
         t = dict(t, Retry=inner_retry)
         kind = kind[:-len("-nested")]
+    exec_timeout = 200
+    if kind.endswith("-exectimeout"):
+        # the *execution* runs out of time (machine-level TimeoutSeconds) while the task is in flight: unrecoverable - no Retrier, no
+        # Catcher (States.ALL, States.Timeout or by name) of the state or of the enclosing fan-out applies
+        kind = kind[:-len("-exectimeout")]
+        t = dict(t, TimeoutSeconds=20)
+        exec_timeout = 3
     if kind == "task-exitquota":
         # the state fails while *exiting*: its merged output (a 200000-character member of the input plus a 100000-character result
         # at ResultPath) exceeds the data quota; that error is retriable / catchable like any other and counts against the same budget
@@ -98,7 +105,7 @@ def machine(kind, retry, catch, fname):
     states["K"] = dict(follow)
     states["K2"] = {"Type": "Pass", "Parameters": {"k2.$": "$"}, "End": True}
     states["W"] = {"Type": "Pass", "Parameters": {"wrapped.$": "$"}, "End": True}
-    return {"StartAt": "G" if "G" in states else "T", "States": states, "TimeoutSeconds": 200}
+    return {"StartAt": "G" if "G" in states else "T", "States": states, "TimeoutSeconds": exec_timeout}
 
 def cases(tier):
     out = []
@@ -123,6 +130,13 @@ def cases(tier):
         for c in (None, [{"ErrorEquals": ["States.DataLimitExceeded"], "Next": "K", "ResultPath": None}]):
             for o in (["B", "ok"], ["B", "B", "ok"], ["B", "B", "B", "ok"], ["B"], ["E1", "B", "ok"], ["ok"]):
                 out.append(("task-exitquota", r, c, o))
+    tmo_handlers = [[{"ErrorEquals": ["States.ALL"], "IntervalSeconds": 1, "MaxAttempts": 2}], [{"ErrorEquals": ["States.Timeout"], "IntervalSeconds": 1, "MaxAttempts": 1}], None]
+    tmo_catchers = [[{"ErrorEquals": ["States.ALL"], "Next": "K"}], [{"ErrorEquals": ["States.Timeout"], "Next": "K", "ResultPath": "$.e"}], None]
+    for kind in ("task-exectimeout", "parallel-exectimeout", "map-exectimeout", "parallel-nested-exectimeout"):
+        for r in tmo_handlers:
+            for c in tmo_catchers:
+                for o in (["T"], ["E1", "T"]):
+                    out.append((kind, r, c, o))
     for kind in ("parallel-nested", "map-nested"):
         for r in single:
             for c in cs[:2]:
